@@ -116,6 +116,14 @@ func gcScenariosC04(c *Ctx) []gcScenario {
 			}
 		}
 	}
+	// messages published with an empty UUID arrive with an empty UUID (every delivery, every redelivery, every replay)
+	for _, per := range []bool{false, true} {
+		for _, blk := range []bool{false, true} {
+			scs = append(scs, gcScenario{Class: "empty-uuid/" + gcCfgName(per, blk, 1), Persistent: per, Blocking: blk, Buffer: 1, EmptyUUID: true,
+				Subs: []gcSub{{Name: "s1", Topic: "t1", Behav: "nack1"}, {Name: "s2", Topic: "t1", Behav: "ack"}, {Name: "s3", Topic: "t1", Behav: "ack", Phase: 2}},
+				Pubs: []gcPub{{Name: "p1", Topic: "t1", N: 2}, {Name: "p2", Topic: "t1", N: 2, Batch: true}}})
+		}
+	}
 	// messages without metadata: what one subscriber writes into its copy is its own business
 	for _, per := range []bool{false, true} {
 		for _, blk := range []bool{false, true} {
@@ -261,6 +269,15 @@ func gcScenariosC05(c *Ctx) []gcScenario {
 				Subs: []gcSub{{Name: "s1", Topic: "t1", Behav: "republish:t2"}, {Name: "s2", Topic: "t2", Behav: "ack"}},
 				Pubs: []gcPub{{Name: "p1", Topic: "t1", N: 1}},
 				Gate: &gcGate{Point: "gochannel.send.wait_settle", ID: "m:1", Event: "subscribe:t1"}})
+		}
+	}
+	// a message is still waiting to be RECEIVED (the consumer does not look at its channel) when that subscription is cancelled:
+	// the blocking Publish returns, the other subscription is served
+	for _, buf := range []int{0, 1} {
+		for _, per := range []bool{false, true} {
+			scs = append(scs, gcScenario{Class: "cancel-unreceived/" + gcCfgName(per, true, buf), Persistent: per, Blocking: true, Buffer: buf,
+				Subs: []gcSub{{Name: "s1", Topic: "t1", Behav: "noread", CancelAt: 2}, {Name: "s2", Topic: "t1", Behav: "ack"}},
+				Pubs: []gcPub{{Name: "p1", Topic: "t1", N: 3}}})
 		}
 	}
 	// blocking fan-out to many subscriptions while some of them are cancelled: Publish still waits for all the others
@@ -448,6 +465,12 @@ func gcScenariosC11(c *Ctx) []gcScenario {
 		}
 		scs = append(scs, sc)
 	}
+	// a subscription that arrives when the backlog is long already, while the publisher goes on: what is published during the
+	// replay comes once, like everything else
+	scs = append(scs, gcScenario{Class: "backlog-with-publisher", Persistent: true, Buffer: 0,
+		Subs: []gcSub{{Name: "s1", Topic: "t1", Behav: "ack"}},
+		Pubs: []gcPub{{Name: "p1", Topic: "t1", N: c.Pick(2300, 5200)}},
+		Gate: &gcGate{Point: "gochannel.publish.persisted", ID: fmt.Sprintf("m:%d", c.Pick(1300, 3100)), Event: "subscribe:t1"}})
 	// a long persisted backlog replayed to a late subscription
 	for _, nmsg := range []int{41, 1031, c.Pick(257, 2053), c.Pick(131, 4099)} { // primes: not divisible by any chunk or worker count
 		scs = append(scs, gcScenario{Class: "backlog", Persistent: true, Buffer: 0,
